@@ -100,7 +100,18 @@ func genPin(r *simkit.Rng, ncids, npeers int) *PinSpec {
 	return p
 }
 
+func decodeStep(raw json.RawMessage) Step {
+	var s Step
+	if err := json.Unmarshal(raw, &s); err != nil {
+		panic(err)
+	}
+	return s
+}
+
 func (H) Generate(prop, tier string, seed uint64) *simkit.Plan {
+	if prop == "C14" {
+		return genC14(tier, seed)
+	}
 	r := simkit.NewRng(seed)
 	p := &simkit.Plan{Property: prop, Harness: "raftsim", Seed: seed, RTSeed: r.Uint64() % 1000}
 	n := r.Pick(1, 2, 5, 2) + 1 // 1..4
@@ -444,6 +455,7 @@ type world struct {
 	nonce  int
 	pend   int
 	lastK  map[*inc]int
+	rotate int
 }
 
 func (w *world) ids() []peer.ID {
@@ -473,6 +485,9 @@ func (w *world) mkcfg(dir string) *raft.Config {
 	cfg.WaitForLeaderTimeout = time.Duration(p.Knob("wait_leader_ms", 5000)) * time.Millisecond
 	cfg.NetworkTimeout = 3 * time.Second
 	cfg.BackupsRotate = 3
+	if w.rotate > 0 {
+		cfg.BackupsRotate = w.rotate
+	}
 	return cfg
 }
 
@@ -590,6 +605,19 @@ func (H) Execute(t *testing.T, plan *simkit.Plan, run *simkit.Run) {
 		w.cids = append(w.cids, simkit.TestCid(i))
 	}
 	w.net = simkit.NewNet(run, time.Duration(plan.Knob("latency_ms", 5))*time.Millisecond)
+	if plan.Property == "C14" {
+		defer func() {
+			for _, x := range w.all {
+				if x.alive && x.cons != nil {
+					x.cons.Shutdown(context.Background())
+				}
+			}
+			w.net.Close()
+			synctest.Wait()
+		}()
+		execC14(w)
+		return
+	}
 	for i := 0; i < n; i++ {
 		w.start(i, filepath.Join(w.base, fmt.Sprintf("p%d-g0", i)), true)
 	}
